@@ -53,6 +53,12 @@ class Layer:
     def derive(self, desc, world):
         raise NotImplementedError
 
+    def key(self):
+        """Hashable content key (used to memoise denotations per layer stack)."""
+        return (type(self).__name__,) + tuple(
+            (k, tuple(sorted(v.items())) if isinstance(v, dict) else (v if isinstance(v, (int, str, tuple, type(None))) else id(v)))
+            for k, v in sorted(self.__dict__.items()))
+
 
 class SpatialLayer(Layer):
     """d/dx_k.  seed: operand name -> name of the opaque stand-in for its gradient
@@ -68,6 +74,11 @@ class SpatialLayer(Layer):
         name, comp, idx, dirs = desc
         if name in world.spatial_const:
             return None
+        if name == "X" or name.startswith("X{"):
+            # reference coordinate symbol of the cell model
+            if self.kind == "X":
+                return ("const", 1 if comp[0] == self.k else 0)
+            raise Unsupported("physical derivative of the reference coordinate symbol")
         if name in self.seed:
             if dirs:
                 raise Unsupported("second derivative of a seeded operand")
@@ -127,6 +138,7 @@ class World:
         self.terminal_hook = None    # callable(world, e, comp, env) -> value | NotImplemented
         self.opq_hook = None         # callable(world, e, comp, env) -> value | NotImplemented (defines opaque operands)
         self.extra_axioms = []
+        self._memos = {}
 
     # -- bookkeeping
     @property
@@ -144,6 +156,14 @@ class World:
 
     def const(self, q):
         return N.bconst(q, self.symbolic)
+
+    def memo(self):
+        sig = (tuple(L.key() for L in self.layers), self.side_of_facet, id(self.opq_hook), id(self.terminal_hook),
+               tuple(sorted(self.spatial_const)), self.complex)
+        m = self._memos.get(sig)
+        if m is None:
+            m = self._memos[sig] = {"__keep__": (self.opq_hook, self.terminal_hook)}
+        return m
 
     def with_layers(self, layers):
         w = World.__new__(World)
@@ -236,8 +256,20 @@ def leibniz_det(M, n):
 
 
 def den(w: World, e, comp=(), env=None):
+    """Memoised front end of _den (the lowered expressions are DAGs with heavy sharing)."""
     env = env or {}
     comp = tuple(comp)
+    memo = w.memo()
+    key = (id(e), comp, tuple((i, env.get(i)) for i in e.ufl_free_indices))
+    hit = memo.get(key)
+    if hit is not None and hit[0] is e:
+        return hit[1]
+    v = _den(w, e, comp, env)
+    memo[key] = (e, v)
+    return v
+
+
+def _den(w: World, e, comp, env):
     d = lambda x, c=(), en=None: den(w, x, c, env if en is None else en)  # noqa: E731
     if isinstance(e, (Opq, OpqDep)):
         if w.opq_hook is not None:
